@@ -56,6 +56,7 @@ pub fn run(ctx: &mut Ctx) {
   let mut commands = 0u64;
   let mut unicode_lines = 0u64;
   let mut tilings = 0u64;
+  let mut long_sequences = 0u64;
   let mut unit = 0u64;
 
   // ---- (1) every 16-bit address in every notation
@@ -282,7 +283,13 @@ pub fn run(ctx: &mut Ctx) {
     ctx.intent2(u, 5);
     let mut rng = Rng::from(&[seed, 205, chunk]);
     for k in 0..nseq / 64 {
-      let n = 1 + rng.below(24) as usize;
+      // a few sequences are longer than the address space (more than 65536 bytes: addresses wrap
+      // once or twice, offsets into the sequence do not fit 16 bits)
+      let long = !cfg!(miri) && k == 9 && chunk % 8 == 3;
+      let n = if long { 40_000 + rng.below(30_000) as usize } else { 1 + rng.below(24) as usize };
+      if long {
+        long_sequences += 1;
+      }
       let mut bytes: Vec<u8> = Vec::new();
       let mut lens: Vec<usize> = Vec::new();
       for j in 0..n {
@@ -313,20 +320,20 @@ pub fn run(ctx: &mut Ctx) {
       });
       let lines = match res {
         Err(e) => {
-          ctx.violation("C20:disassemble:panic", &format!("disassemble({:04X}, {:02X?}) panicked: {}", start, bytes, e));
+          ctx.violation(if long { "C20:disassemble:panic:sequence-longer-than-the-address-space" } else { "C20:disassemble:panic" }, &format!("disassemble({:04X}, {:02X?}{}) panicked: {}", start, &bytes[..bytes.len().min(40)], if long { format!(".. {} bytes", bytes.len()) } else { String::new() }, e));
           continue;
         }
         Ok(l) => l,
       };
       if lines.len() != n {
-        ctx.violation("C20:disassemble:instruction-count", &format!("disassemble({:04X}, {:02X?}): {} instructions, the sequence has {}", start, bytes, lines.len(), n));
+        ctx.violation("C20:disassemble:instruction-count", &format!("disassemble({:04X}, {:02X?}..): {} instructions, the sequence has {}", start, &bytes[..bytes.len().min(40)], lines.len(), n));
         continue;
       }
       let mut addr = start;
       let mut cursor = 0usize;
       for j in 0..n {
         let (_, dlen, _) = decoder::decode(&{
-          let mut w = bytes[cursor..].to_vec();
+          let mut w = bytes[cursor..(cursor + 3).min(bytes.len())].to_vec();
           w.extend_from_slice(&[0, 0, 0]);
           w
         });
@@ -362,6 +369,7 @@ pub fn run(ctx: &mut Ctx) {
   ctx.count("malformed-or-out-of-range-rejected", rejected);
   ctx.count("command-lines", commands);
   ctx.count("unicode-lines", unicode_lines);
+  ctx.count("tilings-of-sequences-longer-than-65536-bytes", long_sequences);
   ctx.count("instruction-sequences-tiled", tilings);
 }
 
